@@ -109,7 +109,9 @@ def opLtk (args : List String) (impl : String) : Verdict :=
       let ltpk := Ed25519.publicKey seed
       let srv := (Sha512.hash ((0xff : UInt8) :: ltpk)).take 32
       let label := "ltk"
-      if kvLookup imp "pk" ≠ hexOf ltpk then l1 label "C10: public key is not the RFC 8032 public key of the seed"
+      if kvLookup imp "fmtleak" ≠ "none" ∧ kvLookup imp "fmtleak" ≠ "" then
+        l1 label ("C20: Display/Debug of MsgSigner / LongTermKey / OnlineKey contains the seed or the secret scalar: " ++ kvLookup imp "fmtleak")
+      else if kvLookup imp "pk" ≠ hexOf ltpk then l1 label "C10: public key is not the RFC 8032 public key of the seed"
       else if kvLookup imp "srv" ≠ hexOf srv then l1 label "C10: SRV is not SHA-512(0xff || pk)[0..32]"
       else if (kvLookup imp "pubs").splitOn "," ≠ [hexOf ltpk, hexOf ltpk, hexOf ltpk] then l1 label "C10: Server::get_public_key differs between instances of the same seed"
       else if kvLookup imp "display" ≠ hexOf ltpk then l1 label "C10: Display of the long-term key is not its public key"
